@@ -14,6 +14,8 @@ pub static mut MADE: [u8; NID] = [0; NID];
 pub static mut CLONES: [u8; NID] = [0; NID];
 pub static mut TOTAL_CLONES: usize = 0;
 pub static mut TOTAL_DROPS: usize = 0;
+/// number of tracked (drop-glue) elements currently alive
+pub static mut TOTAL_LIVE: isize = 0;
 pub static mut ZLIVE: isize = 0;
 pub static mut ZMADE: usize = 0;
 pub static mut ZDROPS: usize = 0;
@@ -50,6 +52,7 @@ pub fn reset_registry() {
         CLONES = [0; NID];
         TOTAL_CLONES = 0;
         TOTAL_DROPS = 0;
+        TOTAL_LIVE = 0;
         ZLIVE = 0;
         ZMADE = 0;
         ZDROPS = 0;
@@ -182,6 +185,7 @@ macro_rules! elem_drop {
             fn make(id: u8, tag: u8) -> Self {
                 unsafe {
                     LIVE[ix(id)] += 1;
+                    TOTAL_LIVE += 1;
                     MADE[ix(id)] = MADE[ix(id)].wrapping_add(1);
                 }
                 Self::raw(id, tag)
@@ -226,6 +230,7 @@ macro_rules! elem_drop {
                     vp_assert!(LIVE[i] == 1, "VP: destructor ran on an element that is not live (double drop or garbage)");
                     vp_assert!(self.pad_ok(), "VP: destructor ran on a corrupted element");
                     LIVE[i] -= 1;
+                    TOTAL_LIVE -= 1;
                     DROPS[i] = DROPS[i].wrapping_add(1);
                     TOTAL_DROPS += 1;
                 }
